@@ -34,7 +34,7 @@ NUMS = ['-32769', '-32768', '-1', '0', '1', '2', '3', '7', '8', '9', '15', '16',
         '127', '128', '255', '256', '257', '319', '320', '639', '640', '1000', '16383', '16384', '32767', '32768', '65535',
         '65536', '1E38', '-1E38', '1.5', '-.5', '1D300', '1E-39', '&HFFFF', '&H8000', '&O177777', '1#', '2!', '3%']
 STRS = ['""', '"A"', '"ab"', 'CHR$(0)', 'CHR$(255)', 'CHR$(13)', 'CHR$(26)', 'STRING$(255,"x")', 'STRING$(128,0)', '"A:B"', '"C:\\X"',
-        '"..\\..\\X"', '".. \\.. \\X"', '"*.*"', '"CON"', '"LPT1:"', '"KYBD:"', '"SCRN:"', '"CAS1:"', '"COM1:"', '"@:X"', '"X.BAS"', '"BAD1.BAS"',
+        '"..\\..\\X"', '".. \\.. \\X"', '"*.*"', '"CON"', '"LPT1:"', '"KYBD:"', '"SCRN:"', '"CAS1:"', '"COM1:"', '"@:X"', '"CD:X"', '":X"', '"AB:"', '"@A:"', '"prn"', '"NUL"', '"aux"', '"X.BAS"', '"BAD1.BAS"',
         '"BAD2.BAS"', '"BAD3.BAS"', '"BAD4.BAS"', '"T.DAT"', '"C:"', '"C:\\"', '"\\"', '"."', '".."', '"A=B"', '"PATH"', '"A="',
         '"=B"', '"12:00:00"', '"24:00:00"', '"-1:00:00"', '"1:-1:1"', '"01-01-1980"', '"02-30-2000"', '"13-01-99"', '"1/1/2100"',
         '"ABCDEFGHIJKL.MNOP"', '"#.##"', '"!"', '"\\  \\"', '"&"', '"**$###,.##^^^^"', '"C4D8E"', '"T255L64N84"', '"X"+CHR$(1)+CHR$(2)',
